@@ -1,5 +1,6 @@
 import FeatModel.Model.RefineSpec
 import Mathlib.Tactic.Ring
+import Mathlib.Tactic.Linarith
 import Mathlib.Algebra.Ring.Rat
 /-! C10 — volume and orientation as polynomial identities in the vertex coordinates (tier B, local form): the four
 children of one straight triangle / one bilinear quadrilateral with ARBITRARY rational vertex coordinates tile the
@@ -54,5 +55,56 @@ theorem quad_children_area (x0 y0 x1 y1 x2 y2 x3 y3 : Rat) :
   simp only [List.map_cons, List.map_nil, List.sum_cons, List.sum_nil, quadArea2, coord, quad_verts]
   simp [quadMesh]
   ring
+
+/-- orientation of the children of a bilinear quadrilateral: if the Jacobian determinant is positive at the four
+    corners of the parent, it is positive at the four corners of every child (the determinant of a bilinear map is
+    affine, the child corners sit at the parent's 3×3 grid points) -/
+theorem quad_children_orientation (x0 y0 x1 y1 x2 y2 x3 y3 : Rat)
+    (hpos : ∀ k < 4, 0 < quadJac (quadMesh x0 y0 x1 y1 x2 y2 x3 y3) [0, 1, 2, 3] k) :
+    ∀ t ∈ (refine (quadMesh x0 y0 x1 y1 x2 y2 x3 y3)).idx 2 0, ∀ k < 4,
+      0 < quadJac (refine (quadMesh x0 y0 x1 y1 x2 y2 x3 y3)) t k := by
+  have p0 := hpos 0 (by omega); have p1 := hpos 1 (by omega)
+  have p2 := hpos 2 (by omega); have p3 := hpos 3 (by omega)
+  simp only [quadJac, coord] at p0 p1 p2 p3
+  simp [quadMesh] at p0 p1 p2 p3
+  intro t ht k hk
+  rw [quad_rows] at ht
+  simp only [List.mem_cons, List.not_mem_nil, or_false] at ht
+  have hk' : k = 0 ∨ k = 1 ∨ k = 2 ∨ k = 3 := by omega
+  rcases ht with rfl | rfl | rfl | rfl <;> rcases hk' with rfl | rfl | rfl | rfl <;>
+    (simp only [quadJac, coord, quad_verts]; simp; nlinarith [p0, p1, p2, p3])
+
+theorem tet_rows (v : List (List Rat)) :
+    (refine (tetMesh v)).idx 3 0 =
+      [[4, 6, 5, 0], [4, 5, 6, 10], [4, 7, 8, 1], [4, 8, 7, 10], [5, 9, 7, 2], [5, 7, 9, 10], [6, 8, 9, 3],
+       [6, 9, 8, 10], [7, 8, 9, 10], [5, 9, 6, 10], [4, 6, 8, 10], [4, 7, 5, 10]] := by
+  rfl
+
+theorem tet_verts (a0 a1 a2 b0 b1 b2 c0 c1 c2 d0 d1 d2 : Rat) :
+    (refine (tetMesh [[a0, a1, a2], [b0, b1, b2], [c0, c1, c2], [d0, d1, d2]])).verts =
+      [[a0, a1, a2], [b0, b1, b2], [c0, c1, c2], [d0, d1, d2],
+       [0 + 1/2 * a0 + 1/2 * b0, 0 + 1/2 * a1 + 1/2 * b1, 0 + 1/2 * a2 + 1/2 * b2],
+       [0 + 1/2 * a0 + 1/2 * c0, 0 + 1/2 * a1 + 1/2 * c1, 0 + 1/2 * a2 + 1/2 * c2],
+       [0 + 1/2 * a0 + 1/2 * d0, 0 + 1/2 * a1 + 1/2 * d1, 0 + 1/2 * a2 + 1/2 * d2],
+       [0 + 1/2 * b0 + 1/2 * c0, 0 + 1/2 * b1 + 1/2 * c1, 0 + 1/2 * b2 + 1/2 * c2],
+       [0 + 1/2 * b0 + 1/2 * d0, 0 + 1/2 * b1 + 1/2 * d1, 0 + 1/2 * b2 + 1/2 * d2],
+       [0 + 1/2 * c0 + 1/2 * d0, 0 + 1/2 * c1 + 1/2 * d1, 0 + 1/2 * c2 + 1/2 * d2],
+       [0 + 1/4 * a0 + 1/4 * b0 + 1/4 * c0 + 1/4 * d0, 0 + 1/4 * a1 + 1/4 * b1 + 1/4 * c1 + 1/4 * d1,
+        0 + 1/4 * a2 + 1/4 * b2 + 1/4 * c2 + 1/4 * d2]] := by
+  simp [refine, tetMesh, fineVerts, midpoint, coord, Mesh.tuple, Mesh.idx, Mesh.num, refCount, faceCount,
+    List.range'_succ, List.range_succ]
+
+/-- the twelve children of a straight tetrahedron (FEAT's centroid refinement) with arbitrary rational vertex
+    coordinates: the four corner children have 1/8, the eight children at the centroid 1/16 of the parent's signed
+    volume — they tile the parent (4/8 + 8/16 = 1) and keep its orientation -/
+theorem tet_children_volume (a0 a1 a2 b0 b1 b2 c0 c1 c2 d0 d1 d2 : Rat) :
+    ((refine (tetMesh [[a0, a1, a2], [b0, b1, b2], [c0, c1, c2], [d0, d1, d2]])).idx 3 0).map
+        (tetVol6 (refine (tetMesh [[a0, a1, a2], [b0, b1, b2], [c0, c1, c2], [d0, d1, d2]]))) =
+      [1/8, 1/16, 1/8, 1/16, 1/8, 1/16, 1/8, 1/16, 1/16, 1/16, 1/16, 1/16].map
+        (· * tetVol6 (tetMesh [[a0, a1, a2], [b0, b1, b2], [c0, c1, c2], [d0, d1, d2]]) [0, 1, 2, 3]) := by
+  rw [tet_rows]
+  simp only [List.map_cons, List.map_nil, tetVol6, coord, tet_verts]
+  simp [tetMesh]
+  refine ⟨?_, ?_, ?_, ?_, ?_, ?_, ?_, ?_, ?_, ?_, ?_, ?_⟩ <;> ring
 
 end FeatModel.Refine
